@@ -12,10 +12,10 @@ git diff > $OUT/patch.diff
 for f in $(git ls-files --others --exclude-standard); do mkdir -p $OUT/demo/$(dirname $f); cp $f $OUT/demo/$f; done
 echo "== patch: $(git diff --stat | tail -1)"
 echo "== build"; go build ./... && go vet $(git diff --name-only | xargs -n1 dirname | sort -u | sed 's#^#./#') 2>&1 | tail -3
-echo "== demo WITH change (must fail)"; go test -count=1 -run "$DRUN" $DPKG > $OUT/demo_with.log 2>&1; rc_with=$?; tail -3 $OUT/demo_with.log
+echo "== demo WITH change (must fail)"; go test ${DEMO_FLAGS:-} -count=1 -run "$DRUN" $DPKG > $OUT/demo_with.log 2>&1; rc_with=$?; tail -3 $OUT/demo_with.log
 # (no git stash: the stash is shared by all worktrees of a repository)
 git apply -R $OUT/patch.diff
-echo "== demo WITHOUT change (must pass)"; go test -count=1 -run "$DRUN" $DPKG > $OUT/demo_without.log 2>&1; rc_without=$?; tail -2 $OUT/demo_without.log
+echo "== demo WITHOUT change (must pass)"; go test ${DEMO_FLAGS:-} -count=1 -run "$DRUN" $DPKG > $OUT/demo_without.log 2>&1; rc_without=$?; tail -2 $OUT/demo_without.log
 git apply $OUT/patch.diff
 echo "== existing suite WITH change (must pass; demo files skipped)"
 go test -vet=off -count=1 -timeout 25m -skip 'ZZ|zz|Demo|DEMO' $(go list ./... | grep -v zzdemo) > $OUT/suite_with.log 2>&1; rc_suite=$?
